@@ -24,11 +24,14 @@ Inductive nresp :=
 | NrSessionExpired | NrRxComplete | NrErrRadio | NrErrState (e : serr) | NrErrMacNotJoined | NrPanic | NrHang.
 Inductive ncall := NcTx (c : tx_config) (frame : list N) | NcRxRequest (rf : rf_config) | NcCancelRx | NcPhy | NcFault (c : ncall).
 
-Record nenv := { n_calls : N; n_fault : option N; n_trace : list ncall (* most recent first *) }.
+(* n_fault = Some (k, n): the radio calls number k .. k+n-1 of the history fail *)
+Record nenv := { n_calls : N; n_fault : option (N * N); n_trace : list ncall (* most recent first *) }.
+Definition nfaulty (e : nenv) : bool :=
+  match n_fault e with Some (k, n) => (k <=? n_calls e) && (n_calls e <? k + n) | None => false end.
 (* a radio call: true = it went through *)
 Definition ncall_radio (e : nenv) (what : ncall) : nenv * bool :=
   let n := n_calls e in
-  if match n_fault e with Some k => k =? n | None => false end
+  if nfaulty e
   then ({| n_calls := n + 1; n_fault := n_fault e; n_trace := NcFault what :: n_trace e |}, false)
   else ({| n_calls := n + 1; n_fault := n_fault e; n_trace := what :: n_trace e |}, true).
 
